@@ -133,6 +133,18 @@ def rule_enq(ctx, rep):
             rep.must_pass("C03.enq", fl + ".enqueue≺wake", f, [f.entry()], fu, lambda i: i in xt, include_start=True, what="the wake-up test happens after the enqueue")
             rep.must_pass("C03.enq", fl + ".enqueue≺FULL≺futex", f, xt, fu, lambda i: mm.is_full(i) and i not in xt,
                           what="FULL barrier between the enqueue and the futex test (store→load pair with the helper's dec/scan)")
+        if fu:
+            # publish => wake on *every* path: after the enqueue the only test allowed to skip the futex test is the helper's RT flag
+            # (an RT helper polls and never sleeps); who the caller is, which helper it is, or how long the queue is must not decide it
+            rt = [(t.blk.id, s_) for t, s_, a in pat.branch_edges_on(f, lambda a: pat.atom_mentions(a, lambda e: pat.is_load_expr(e, "call_rcu_data.flags")))]
+            hit, par = f.reach(xt, None, avoid=lambda i: i in fu, edge_ok=pat.block_edge_filter(rt), stop_at_exit=True)
+            if hit is not None and getattr(hit, "op", None) == "ret":
+                path = f.path_to(hit, par)
+                br = [i for i in path if i.op in ("br", "switch") and len(i.blk.succ) >= 2]
+                rep.bad("C03.enq", fl + ".publish⇒wake", "a path from the enqueue to the return never tests the helper's futex and is not the RT-flag exemption: a callback published "
+                        "on that path is not followed by a wake-up, so a helper that went to sleep just before it never runs it", [i.where() for i in br[-1:]] or [hit.where()])
+            else:
+                rep.ok("C03.enq", fl + ".publish⇒wake", "every path from the enqueue to the return tests the helper's futex, the RT-flag exemption aside")
         if ql:
             rep.must_pass("C03.enq", fl + ".qlen-after-enqueue", f, [f.entry()], ql, lambda i: i in xt, include_start=True, what="qlen incremented after the enqueue")
         # read-side bracket (memb, mb, bp)
